@@ -89,12 +89,13 @@ func cmdVC(args []string) {
 			continue
 		}
 		fmt.Printf("%-8s %-7s %5dms %s  [%s]\n", o.Result, o.Solver, o.TimeMs, o.Name, o.Pos)
-		if o.Result != "unsat" && *verbose {
+		if (o.Result != "unsat" || os.Getenv("GOVC_SHOWALL") != "") && *verbose {
 			fmt.Println("   guard:", o.Guard)
 			fmt.Println("   goal: ", o.Goal)
 			fmt.Println("   ", firstLines(o.Model, 6))
 		}
 	}
+	fmt.Printf("cover (assumptions satisfiable): %s\n", map[string]string{"sat": "ok", "unknown": "unknown", "unsat": "CONTRADICTORY", "": "-"}[tr.coverResult])
 	fmt.Printf("inlined: %v\nhavocked: %v\nstubs: %v\n", sortedKeys(tr.inlined), sortedKeys(tr.havocked), sortedKeys(tr.usedStubs))
 }
 
